@@ -10,6 +10,7 @@ import PyYetiVerif.Props.C01Rb
 import PyYetiVerif.Props.C01StaticC
 import PyYetiVerif.Props.C01PreEig
 import PyYetiVerif.Props.C01Cuts
+import PyYetiVerif.Props.C01CplxUnc
 #print axioms PyYetiVerif.C01.su_solves_ode_under
 #print axioms PyYetiVerif.C01.su_solves_ode_over
 #print axioms PyYetiVerif.C01.su_solves_ode_crit
@@ -78,3 +79,9 @@ import PyYetiVerif.Props.C01Cuts
 #print axioms PyYetiVerif.C01.classify_elastic_spec
 #print axioms PyYetiVerif.C01.classify_rb_spec
 #print axioms PyYetiVerif.C01.classify_auto_rb_iff
+#print axioms PyYetiVerif.C01.complex_unc_rb_row_is_undamped
+#print axioms PyYetiVerif.C01.isSol_unit_mass_scale
+#print axioms PyYetiVerif.C01.complex_unc_rb_exact_partial
+#print axioms PyYetiVerif.C01.complex_unc_damped_rb_counterexample
+#print axioms PyYetiVerif.C01.complex_recovery_real_part
+#print axioms PyYetiVerif.C01.complex_recovery_spurious_imag_counterexample
